@@ -94,3 +94,8 @@ Definition chk_ge (mname pname : nat) (rev : bool) (n : nat) (es : list (entry Q
   | None => implErr
   | Some (xm, xp) => negb implErr && qlist_eqb xm implM && qlist_eqb xp implP
   end.
+
+(* ---- ExtraGibbsModel: GM and G evaluated by the implementation (symbolic model of pycalphad, numeric point) --- *)
+Definition chk_extra (rt ast ge n implGM implG : Q) : verdict * verdict :=
+  (cmpl rt [implGM] [extra_gm Qops ast ge] [qadd (qabs ast) (qabs ge)],
+   cmpl rt [implG] [extra_g Qops ast ge n] [qmul (qadd (qabs ast) (qabs ge)) (qabs n)]).
